@@ -37,13 +37,13 @@ def confirm(wt, prop, name):
     # 1. with the change: baseline passes, demo fails
     missing = passing(wt)
     res["baseline_missing_with_change"] = missing
-    rc, out = sh("cargo test -p walrus-tests --test %s --offline 2>&1" % demo, cwd=wt)
+    rc, out = sh("cargo test -p walrus-tests --test %s --offline %s 2>&1" % (demo, os.environ.get("SEED_DEMO_ARGS", "")), cwd=wt)
     res["demo_with_change"] = "fails" if rc != 0 else "passes"
     res["demo_with_change_tail"] = "\n".join(out.splitlines()[-6:])
     # 2. without the change (source only): demo passes
     rc, _ = sh("git apply -R _seeded/patch.diff", cwd=wt)
     assert rc == 0, "cannot revert patch"
-    rc, out = sh("cargo test -p walrus-tests --test %s --offline 2>&1" % demo, cwd=wt)
+    rc, out = sh("cargo test -p walrus-tests --test %s --offline %s 2>&1" % (demo, os.environ.get("SEED_DEMO_ARGS", "")), cwd=wt)
     res["demo_without_change"] = "passes" if rc == 0 else "fails"
     sh("git apply _seeded/patch.diff", cwd=wt)
     # 3. the patch applies to /repo
